@@ -7,6 +7,7 @@ import (
 
 	"sigs.k8s.io/kustomize/api/filters/fieldspec"
 	"sigs.k8s.io/kustomize/api/filters/filtersutil"
+	"sigs.k8s.io/kustomize/api/filters/fsslice"
 	"sigs.k8s.io/kustomize/api/types"
 	"sigs.k8s.io/kustomize/kyaml/resid"
 	"sigs.k8s.io/kustomize/kyaml/utils"
@@ -57,18 +58,48 @@ func (f *fsSpec) filter(rec *[]*kyaml.Node) fieldspec.Filter {
 	}
 }
 
+// sliceFilter: fsslice.Filter over the field specs of the case (the first one carries SetValue/CreateKind/CreateTag)
+func sliceFilter14(l []*fsSpec, rec *[]*kyaml.Node) fsslice.Filter {
+	fsl := types.FsSlice{}
+	for _, f := range l {
+		fsl = append(fsl, types.FieldSpec{
+			Gvk:                resid.Gvk{Group: f.Group, Version: f.Version, Kind: f.Kind},
+			Path:               f.Path,
+			CreateIfNotPresent: f.Create,
+		})
+	}
+	return fsslice.Filter{FsSlice: fsl, SetValue: l[0].setFn(rec), CreateKind: kyaml.Kind(kindOf(l[0].CreateKind)), CreateTag: l[0].CreateTag}
+}
+
+func coqSliceOp14(l []*fsSpec) string {
+	rows := []string{}
+	for _, f := range l {
+		rows = append(rows, fmt.Sprintf("mkFs %s %s %s %s %s", coqStr(f.Group), coqStr(f.Version), coqStr(f.Kind), coqStr(f.Path), coqBool(f.Create)))
+	}
+	f := l[0]
+	ck := "None"
+	if f.CreateKind != "" {
+		ck = "(Some " + f.CreateKind + ")"
+	}
+	return fmt.Sprintf("(OFsSlice [%s] %s %s %s)", strings.Join(rows, "; "), ck, coqTag(f.CreateTag), f.coqSV())
+}
+
+func (f *fsSpec) coqSV() string {
+	switch f.SetValue {
+	case "scalar":
+		return `(SVScalar (Scalar TNone SPlain "MARK"))`
+	case "entry":
+		return `(SVEntry "mk" (Scalar TNone SPlain "MV"))`
+	}
+	return "SVNone"
+}
+
 func (f *fsSpec) coqOp() string {
 	ck := "None"
 	if f.CreateKind != "" {
 		ck = "(Some " + f.CreateKind + ")"
 	}
-	sv := "SVNone"
-	switch f.SetValue {
-	case "scalar":
-		sv = `(SVScalar (Scalar TNone SPlain "MARK"))`
-	case "entry":
-		sv = `(SVEntry "mk" (Scalar TNone SPlain "MV"))`
-	}
+	sv := f.coqSV()
 	return fmt.Sprintf("(OFieldSpec (mkFs %s %s %s %s %s) %s %s %s)",
 		coqStr(f.Group), coqStr(f.Version), coqStr(f.Kind), coqStr(f.Path), coqBool(f.Create), ck, coqTag(f.CreateTag), sv)
 }
@@ -305,6 +336,57 @@ func lawsFS14(s sink, c case14, d *docCtx14) (string, bool) {
 	return cls, len(rec) > 0
 }
 
+// lawsFSSlice14: C14_fsslice_frame on the implementation: every spec has seg_ok segments, outcome Ok =>
+// a position that leaves the path of EVERY spec keeps its value.
+func lawsFSSlice14(s sink, c case14, d *docCtx14) (string, bool) {
+	orig := d.ref
+	doc := orig.Copy()
+	rec := []*kyaml.Node{}
+	cls, msg := protect14(func() error {
+		_, e := doc.Pipe(sliceFilter14(c.FSL, &rec))
+		return e
+	})
+	if cls == ClsPanic {
+		s.Violation(OracleViolation{Law: "no_panic", Class: "C14/panic-fieldspec:" + strings.ReplaceAll(firstN(msg, 50), " ", "_"),
+			Detail: "fsslice.Filter panics: " + msg, Replay: c})
+		return cls, false
+	}
+	checkWellFormed14(s, c, cls, doc)
+	if cls != ClsOk {
+		return cls, false
+	}
+	paths := [][]string{}
+	for _, f := range c.FSL {
+		segs := utils.PathSplitter(f.Path, "/")
+		if !allSegs(segs, segOk14) {
+			return cls, len(rec) > 0
+		}
+		paths = append(paths, segs)
+	}
+	s.Count("law_domain", "fsslice-frame")
+	pos := []jpos{}
+	allPositions14(orig.YNode(), nil, &pos)
+	for _, q := range pos {
+		all := true
+		for _, segs := range paths {
+			if !fsDiverges14(segs, q) {
+				all = false
+				break
+			}
+		}
+		if !all {
+			continue
+		}
+		before, after := yString(getAt14(q, orig.YNode())), yString(getAt14(q, doc.YNode()))
+		if before != after {
+			s.Violation(OracleViolation{Law: "fsslice_frame", Class: "C14/fsslice_frame",
+				Detail: fmt.Sprintf("position %v leaves every path of the slice but changed: %s -> %s", q, before, after), Replay: c})
+			break
+		}
+	}
+	return cls, len(rec) > 0
+}
+
 func firstN(s string, n int) string {
 	if len(s) > n {
 		return s[:n]
@@ -506,6 +588,24 @@ func genFSCase14(g *Rng) case14 {
 	f.CreateTag = g.Pick([]string{"", "", "!!str", "!!map", "!!seq", "!!int"})
 	f.SetValue = g.Pick([]string{"scalar", "entry", "none"})
 	return case14{Op: "fieldspec", Doc: doc, Path: []string{}, FS: f}
+}
+
+// genFSSliceCase14: two or three field specs applied in sequence by fsslice.Filter
+func genFSSliceCase14(g *Rng) case14 {
+	c := genFSCase14(g)
+	l := []*fsSpec{c.FS}
+	root := genFSObjNode14(g) // paths of the further specs follow another random object of the same shape family
+	for k := 1 + g.Intn(2); k > 0; k-- {
+		f := &fsSpec{Path: genFSPath14(g), Create: g.Chance(50)}
+		if g.Chance(50) {
+			f.Path = genFSPathGuided14(g, root)
+		}
+		if g.Chance(10) {
+			f.Kind = g.Pick(fsKinds[:2])
+		}
+		l = append(l, f)
+	}
+	return case14{Op: "fsslice", Doc: c.Doc, Path: []string{}, FS: c.FS, FSL: l}
 }
 
 // count records the input distribution of a field-spec case.
